@@ -4,5 +4,9 @@ CONSTANTS MaxDepth = 3
           Vals <- MCVals
           Limits <- LimitsQ
           MaxClose = 1
-INVARIANTS TypeOK ListLaw ValLaw LevelLaw ReadAhead CloseReaches ClosedOnce
+          DocAlpha <- DocsM
+          DocLen = 2
+          DocDepth = 1
+INVARIANTS TypeOK ListLaw ValLaw SrcLaw LevelLaw ReadAhead CloseReaches ClosedOnce
+PROPERTIES OutStable
 CHECK_DEADLOCK FALSE
